@@ -84,3 +84,7 @@ UNICODE_TRAPS = (
     "I\u0307 \u0130 \u00df \u1e9e \u01c5",  # case-folding traps
     "\u0041\u030a\u0323",  # combining marks in non-canonical order
 )
+
+# text that is harmless as DATA but special as a TEMPLATE: %-formatting, str.format, re.sub replacement strings,
+# backslash escapes - wherever a value or a whole line is spliced into a message or a pattern
+FORMAT_TRAPS = ("%", "100%", "%d", "%s", "%(x)s", "%%", "{0}", "{}", "{x}", "{{", "}", "\\", "\\n", "\\1", "\\g<0>", "$1", "${x}", "\\d+", "(?P<x>", "[a-", "*")
